@@ -23,6 +23,14 @@ theorem cast_ne_of_emod_ne (u : ℤ) (h : u % (p : ℤ) ≠ 0) : ((u : ℤ) : ZM
   have := (ZMod.intCast_zmod_eq_zero_iff_dvd u p).mp h0
   exact Int.emod_eq_zero_of_dvd this
 
+theorem cast_ne_of_inv (u inv : ℤ) (h : (inv * u) % (p : ℤ) = 1) : ((u : ℤ) : ZMod p) ≠ 0 := by
+  have h1 : (((inv * u) % (p : ℤ) : ℤ) : ZMod p) = ((1 : ℤ) : ZMod p) := by rw [h]
+  rw [ZMod.intCast_mod] at h1
+  push_cast at h1
+  intro hz
+  rw [hz, mul_zero] at h1
+  exact zero_ne_one h1
+
 theorem cast_inv_of_emod (u inv : ℤ) (h : (inv * u) % (p : ℤ) = 1) : ((inv : ℤ) : ZMod p) = ((u : ℤ) : ZMod p)⁻¹ := by
   have h1 : (((inv * u) % (p : ℤ) : ℤ) : ZMod p) = ((1 : ℤ) : ZMod p) := by rw [h]
   rw [ZMod.intCast_mod] at h1
@@ -50,8 +58,10 @@ theorem gen_add_generic (a b x0 y0 x1 y1 inv : ℤ)
     have := cast_ne_of_emod_ne (p := p) (x0 - x1) hne
     push_cast at this
     exact sub_ne_zero.mp this
-  have hi := cast_inv_of_emod (p := p) (x1 - x0) inv hinv
+  have hi := cast_inv_of_emod (p := p) _ inv hinv
   push_cast at hi
+  have hu := cast_ne_of_inv (p := p) _ inv hinv
+  push_cast at hu
   rw [slope_of_X_ne hx]
   have hd : ((x0 : ℤ) : ZMod p) - ((x1 : ℤ) : ZMod p) ≠ 0 := sub_ne_zero.mpr hx
   have hd' : ((x1 : ℤ) : ZMod p) - ((x0 : ℤ) : ZMod p) ≠ 0 := sub_ne_zero.mpr (Ne.symm hx)
@@ -104,8 +114,10 @@ theorem gen_add_double (a b x0 y0 x1 y1 inv : ℤ)
     rcases mul_eq_zero.mp hd with h | h
     · exact sub_eq_zero.mp h
     · exact absurd h hy
-  have hi := cast_inv_of_emod (p := p) (2 * y0) inv hinv
+  have hi := cast_inv_of_emod (p := p) _ inv hinv
   push_cast at hi
+  have hu := cast_ne_of_inv (p := p) _ inv hinv
+  push_cast at hu
   have h2y : (2 : ZMod p) * ((y0 : ℤ) : ZMod p) ≠ 0 := by
     intro hz
     apply hy
